@@ -224,6 +224,8 @@ def check(c, ctx):
             if sub == enc[p]:
                 return
             bad = enc[:p] + sub + enc[p + 1:]
+            if re.fullmatch(r'[0-9a-fA-F]+', bad) and len(bad) % 2 == 0 or re.fullmatch(r'-?[0-9]+', bad):
+                return      # the corrupted string reads as a hex / decimal literal (argument typing again, see above)
             want = B58.decode_check(bad)
             r = tf('base58chk-decode %s' % bad)
             rejected = 'decode failed' in r.get('err', '')
